@@ -5,11 +5,13 @@
   clauses, `inv2_reachable`) and Proofs/ReqDrained.lean.  Proved here: the step-level facts (all states)
   and the history-level invariants Y1/Y3/Y4/ownership (all event lists from the initial state).  The
   same properties are also checked on the implementation's traces by the C12 judge (Spec/Req.lean), by
-  ASan/LeakSanitizer, and through the model correspondence.
+  ASan/LeakSanitizer, and through the model correspondence.  "The C12 judge accepts every trace of the model" is
+  proved in Proofs/ReqJudge*.lean (simulation between model state and judge state).
 -/
 import NngModel.Proofs.ReqSteps
 import NngModel.Proofs.ReqDrained
 import NngModel.Proofs.ReqAlias
+import NngModel.Proofs.ReqJudgeMain
 import NngModel.Spec.Req
 namespace Nng.C12
 open Nng Nng.Proto Nng.Req
@@ -254,20 +256,73 @@ theorem judge12_rejects_abort_with_zero :
   revert this
   decide
 
-/-- NOT proved: under `JudgeHyps` the C12 judge accepts every trace of the model.  It needs a simulation
-    relation between the judge's bookkeeping (`ReqSpec.J`) and the model state, on top of `inv2_reachable`;
-    further generator guarantees may be needed as hypotheses (`advance` never lands on a timer deadline
-    and never crosses two of them).  The judge is run on the implementation's traces and, through the
-    correspondence, on the model's. -/
+/-- `sendBodies` here and in the simulation proof are the same function -/
+theorem sendBodies_eq (evs : List Ev) : sendBodies evs = Nng.ReqJ.sendBodies evs := rfl
+
+/-- further guarantees of the check's generator (vlib/props/c04req.py, shared by C12) that the judge relies on:
+    * `abort` is never used with NNG_ECONNRESET (the generator aborts with 5, 20 or 7): a harness-only way to make a
+      receive report a connection loss that did not happen;
+    * at most `relBase` = 65536 requests are submitted in one case (wire names `idMin + index`, relative names above);
+    * a reply that uses a relative name does so only for a request that has no wire name of its own.
+    NOT needed (the model's timing is deterministic and the judge's clauses are robust against it): that `advance`
+    never lands exactly on a timer deadline or crosses only one of them — the generator guarantees this for the
+    sake of the *implementation's* expire thread, the theorem holds without it. -/
+def GenHyps (evs : List Ev) : Prop :=
+  (∀ a, Ev.abort a Err.econnreset ∉ evs) ∧ (sendBodies evs).length ≤ relBase ∧ Nng.ReqJ.RepliesNamed {} evs
+
+/-- **The C12 judge accepts every trace of the REQ model** (all event lists satisfying the generator's guarantees). -/
+theorem judge_accepts_model (evs : List Ev) (h : JudgeHyps evs) (g : GenHyps evs) :
+    Nng.ReqSpec.judge12 (evs.zip (run {} evs).2) = none :=
+  Nng.ReqJ.judge12_accepts evs h.1 g.1 h.2 g.2.1 g.2.2
+
+/-- the statement with `JudgeHyps` alone (the former `judge_accepts_model_statement`) is FALSE -/
 def judge_accepts_model_statement : Prop :=
   ∀ evs : List Ev, JudgeHyps evs → Nng.ReqSpec.judge12 (evs.zip (run {} evs).2) = none
+
+/-- … because of `abort <recv aio> ECONNRESET` -/
+theorem judge_needs_no_abort_econnreset : ¬ judge_accepts_model_statement := by
+  intro h
+  have := h [.openSock "req" false, .pipeAdd 0x31, .send none 0 ⟨[], [1]⟩ .inf, .recv none 1 .inf, .abort 1 19]
+    ⟨fun a h => by simp at h, by decide⟩
+  revert this
+  decide
+
+/-- … and because of replies that name a request that is on the wire by a relative name: the model (like req.c)
+    takes the reply, the judge still counts the request as outstanding and expects its retransmission when the
+    connection goes away -/
+theorem judge_needs_reply_names :
+    ¬ ∀ evs : List Ev, JudgeHyps evs → (∀ a, Ev.abort a Err.econnreset ∉ evs) → (sendBodies evs).length ≤ relBase →
+      Nng.ReqSpec.judge12 (evs.zip (run {} evs).2) = none := by
+  intro h
+  have := h [.openSock "req" false, .pipeAdd 0x31, .pipeAdd 0x31, .send none 0 ⟨[], [1]⟩ .inf, .ctxOpen 0,
+             .send (some 0) 1 ⟨[], [2]⟩ .inf, .recv (some 0) 2 .inf,
+             .recvDone 0 (.ok (beEncode 4 (idMin + relBase * (relOff + 1)) ++ [9])), .sendDone 0 0, .pipeDrop 1]
+    ⟨fun a h => by simp at h, by decide⟩ (fun a h => by simp [Err.econnreset] at h) (by decide)
+  revert this
+  decide
+
+/-- distinct request bodies are needed: the judge identifies a request on the wire by its body -/
+theorem judge_needs_distinct_bodies :
+    ¬ ∀ evs : List Ev, (∀ a, Ev.abort a 0 ∉ evs) → GenHyps evs → Nng.ReqSpec.judge12 (evs.zip (run {} evs).2) = none := by
+  intro h
+  have := h [.openSock "req" false, .pipeAdd 0x31, .pipeAdd 0x31, .ctxOpen 0, .send none 0 ⟨[], [1]⟩ .inf,
+             .send (some 0) 1 ⟨[], [1]⟩ .inf, .recv (some 0) 2 .inf, .recvDone 1 (.ok (beEncode 4 (idMin + 1) ++ [9]))]
+    (fun a h => by simp at h) ⟨fun a h => by simp [Err.econnreset] at h, by decide, by decide⟩
+  revert this
+  decide
 
 /-- the hypotheses are satisfiable by a non-trivial history, which the judge accepts -/
 example :
     let evs : List Ev := [.openSock "req" false, .pipeAdd 0x31, .pipeAdd 0x31, .send none 0 ⟨[], [1]⟩ .inf,
                           .recv none 1 .inf, .pipeDrop 0, .recvDone 1 (.ok (beEncode 4 idMin ++ [7]))]
-    JudgeHyps evs ∧ Nng.ReqSpec.judge12 (evs.zip (run {} evs).2) = none := by
-  refine ⟨⟨fun a h => by simp at h, by decide⟩, by decide⟩
+    JudgeHyps evs ∧ GenHyps evs ∧ Nng.ReqSpec.judge12 (evs.zip (run {} evs).2) = none := by
+  have hj : JudgeHyps [.openSock "req" false, .pipeAdd 0x31, .pipeAdd 0x31, .send none 0 ⟨[], [1]⟩ .inf,
+                          .recv none 1 .inf, .pipeDrop 0, .recvDone 1 (.ok (beEncode 4 idMin ++ [7]))] :=
+    ⟨fun a h => by simp at h, by decide⟩
+  have hg : GenHyps [.openSock "req" false, .pipeAdd 0x31, .pipeAdd 0x31, .send none 0 ⟨[], [1]⟩ .inf,
+                          .recv none 1 .inf, .pipeDrop 0, .recvDone 1 (.ok (beEncode 4 idMin ++ [7]))] :=
+    ⟨fun a h => by simp at h, by decide, by decide⟩
+  exact ⟨hj, hg, judge_accepts_model _ hj hg⟩
 
 /-- non-vacuity: resending disabled, request on the wire, receive waiting; the connection goes away and
     the receive fails with ECONNRESET -/
